@@ -128,13 +128,8 @@ def run(prog, tier, res):
     else:
         res.violate(R5, WAVE, "index-formula", "waveform_at slices %s; the decoder's block layout requires %s" % (got, want), wb.where())
     # None iff position is None
-    none_ok = False
-    for bb, t in wan.ret_assignments():
-        if t[0] == "aggr" and t[1].endswith("Option::None"):
-            for path in forward_paths(wan, bb) or []:
-                ats = [fsub(atom_str(a)) for a in (accept.simplify(path_atoms(wsy, path), wsy.sym_box) or [])]
-                if ats == ["POS is None"]:
-                    none_ok = True
+    none_rows = [[fsub(a) for a in ats] for ats, val in accept.ret_table(prog, WAVE) if val == "None{}"]
+    none_ok = none_rows == [["POS is None"]]      # the explicit `else { None }` arm or the early return of `position(..)?`
     if none_ok:
         res.hit(R5)
     else:
